@@ -384,14 +384,18 @@ fn read_reg<P: Problem>(c: &str, state: &State<P>) -> Value {
     )
 }
 
-/// Another instance of the same component under another identifier in the same state.
+/// Another instance of the same component in the same state: under another identifier, or -- an EARLIER one (an
+/// earlier phase, a run on a reused state, an enclosing heuristic) -- under the identifier of the executed instance.
 #[derive(Clone, Debug)]
 struct Sib {
     id: String,
     rate: f64,
     st: i64,
-    /// initialised after the executed instance (else before)
+    /// initialised after the executed instance (else before); never for the executed instance's own identifier
     after: bool,
+    /// initialised in the ENCLOSING scope: the executed instance (and the other siblings) are then initialised and
+    /// run in a child scope (`State::with_inner_state`, what `Scope` does)
+    up: bool,
 }
 
 /// `MutationRate` (`w = 1`, value `rate`) or `MutationStrength` (`w = 2`, ladder index `st`) of
@@ -440,7 +444,7 @@ impl Raw {
         let sibs: Vec<Value> = self
             .sibs
             .iter()
-            .map(|s| json!({"id": s.id, "rate": s.rate, "st": s.st, "after": s.after}))
+            .map(|s| json!({"id": s.id, "rate": s.rate, "st": s.st, "after": s.after, "up": s.up}))
             .collect();
         let adapt: Vec<Value> =
             self.adapt.iter().map(|a| json!({"id": a.id, "w": a.w, "rate": a.rate, "st": a.st})).collect();
@@ -478,6 +482,7 @@ impl Raw {
                     rate: s["rate"].as_f64().unwrap(),
                     st: s["st"].as_i64().unwrap(),
                     after: s["after"].as_bool().unwrap(),
+                    up: s.get("up").and_then(|x| x.as_bool()).unwrap_or(false),
                 })
                 .collect(),
             adapt: arr("adapt")
@@ -674,28 +679,50 @@ fn run_comp<P: Problem>(
         state.populations_mut().push(inds);
     }
     let mut built = json!([]);
+    let mut reg_inner: Option<Value> = None;
     let k = match caught(|| make()) {
         Err(_) => "panic",
         Ok(Err(_)) => "ctor_err",
         Ok(Ok(comp)) => {
             built = read_built(&raw.c, &comp);
             let st = &mut state;
+            let reg_in = &mut reg_inner;
             match caught(move || -> ExecResult<()> {
-                for s in raw.sibs.iter().filter(|s| !s.after) {
+                // instances of an enclosing scope first; everything else happens in a child scope then
+                let scoped = raw.sibs.iter().any(|s| s.up);
+                for s in raw.sibs.iter().filter(|s| s.up) {
                     sibling(s).init(problem, st)?;
                 }
-                comp.init(problem, st)?;
-                for s in raw.sibs.iter().filter(|s| s.after) {
-                    sibling(s).init(problem, st)?;
-                }
-                for a in &raw.adapt {
-                    match a.w {
-                        1 => set_rate(&raw.c, &a.id, st, a.rate),
-                        _ => set_strength(&raw.c, &a.id, st, st_value(a.st)),
+                let body = |st: &mut State<'static, P>| -> ExecResult<()> {
+                    for s in raw.sibs.iter().filter(|s| !s.up && !s.after) {
+                        sibling(s).init(problem, st)?;
                     }
+                    comp.init(problem, st)?;
+                    for s in raw.sibs.iter().filter(|s| !s.up && s.after) {
+                        sibling(s).init(problem, st)?;
+                    }
+                    for a in &raw.adapt {
+                        match a.w {
+                            1 => set_rate(&raw.c, &a.id, st, a.rate),
+                            _ => set_strength(&raw.c, &a.id, st, st_value(a.st)),
+                        }
+                    }
+                    comp.require(problem, &st.requirements())?;
+                    comp.execute(problem, st)
+                };
+                if scoped {
+                    let mut out = Ok(());
+                    let inner = st.with_inner_state(|st| {
+                        out = body(st);
+                        // the parameter states as the executed instance sees them (read where it ran)
+                        *reg_in = Some(read_reg(&raw.c, st));
+                        Ok(())
+                    });
+                    inner?;
+                    out
+                } else {
+                    body(st)
                 }
-                comp.require(problem, &st.requirements())?;
-                comp.execute(problem, st)
             }) {
                 Err(_) => "panic",
                 Ok(Err(_)) => "err",
@@ -703,7 +730,7 @@ fn run_comp<P: Problem>(
             }
         }
     };
-    let reg = if matches!(k, "ok" | "err") { read_reg(&raw.c, &state) } else { json!([]) };
+    let reg = if matches!(k, "ok" | "err") { reg_inner.take().unwrap_or_else(|| read_reg(&raw.c, &state)) } else { json!([]) };
     if !matches!(k, "ok" | "err") {
         built = json!([]);
     }
@@ -766,7 +793,7 @@ fn act_json(raw: &Raw, pin: Value, base: Value) -> Value {
     let sibs: Vec<Value> = raw
         .sibs
         .iter()
-        .map(|s| json!({"id": s.id, "pr": pclass(s.rate), "st": if has_strength(c) { s.st } else { 0 }}))
+        .map(|s| json!({"id": s.id, "pr": pclass(s.rate), "st": if has_strength(c) { s.st } else { 0 }, "up": s.up as i64}))
         .collect();
     let adapt: Vec<Value> = raw
         .adapt
@@ -1250,7 +1277,19 @@ fn gen_raw(c: &str, r: &mut ChaCha8Rng, edge: Option<usize>, k: usize) -> Raw {
         for o in others {
             let rate = other_rate(r, raw.rate);
             let st = other_st(r, raw.st);
-            raw.sibs.push(Sib { id: o.to_string(), rate, st, after: r.gen_bool(0.5) });
+            let up = r.gen_range(0..4) == 0;
+            raw.sibs.push(Sib { id: o.to_string(), rate, st, after: !up && r.gen_bool(0.5), up });
+        }
+        // an EARLIER instance under the executed instance's own identifier (an earlier phase on the same state, or
+        // the instance of an enclosing scope) with another rate / strength: the executed instance's own `init`
+        // comes after it.  Often the executed instance is the one that must not change anything (rate 0).
+        if r.gen_range(0..3) == 0 {
+            if r.gen_bool(0.5) {
+                raw.rate = if r.gen_bool(0.5) { 0.0 } else { -0.0 };
+            }
+            let rate = other_rate(r, raw.rate);
+            let st = other_st(r, raw.st);
+            raw.sibs.push(Sib { id: raw.id.clone(), rate, st, after: false, up: r.gen_bool(0.5) });
         }
         let present: Vec<String> =
             std::iter::once(raw.id.clone()).chain(raw.sibs.iter().map(|s| s.id.clone())).collect();
